@@ -717,3 +717,38 @@ def c14_illumina(tier, rng):
                 "obligation": "C14.illumina_corrector", "inputs": {"seed": base + k}, "observed": p[:3] + [str(desc)], "required": "the sentences of C14",
                 "replay_call": "contracts.c_correction:replay_illumina"}]}
     return {"cases": n, "bound": "%d random reads with short-read introns" % n, "violations": [], "samples": [{"seed": base}]}
+
+
+# ---- which corrector reads of unannotated loci get: none at all under strategy none, and without short reads ---------------------------------------------
+@finite("C14.corrector_choice", ["C14"], note="the condition under which AlignmentCollector.process_intergenic builds an IlluminaExonCorrector (extracted from "
+        "the source on every run: the test of the `if` whose body assigns `corrector = IlluminaExonCorrector(...)`), evaluated for every "
+        "splice correction strategy x short reads given / not given: it holds exactly when short reads are given and the strategy is not none")
+def c14_corrector_choice(tier, rng):
+    import types
+    tree = ast.parse(open(front.REPO + "/src/alignment_processor.py").read())
+    cls = [n for n in tree.body if isinstance(n, ast.ClassDef) and n.name == "AlignmentCollector"][0]
+    fn = [n for n in cls.body if isinstance(n, ast.FunctionDef) and n.name == "process_intergenic"][0]
+    ifs = [n for n in ast.walk(fn) if isinstance(n, ast.If) and any(isinstance(b, ast.Assign) and isinstance(b.value, ast.Call) and
+                                                                     ast.unparse(b.value.func) == "IlluminaExonCorrector" for b in n.body)]
+    if len(ifs) != 1:
+        raise front.Missing("the choice of the short-read corrector was not found in process_intergenic")
+    code = compile(ast.Expression(ifs[0].test), "<corrector choice>", "eval")
+    obl = dis = 0
+    viol = []
+    for strategy in ("none", "default_pacbio", "sensitive_pacbio", "default_ont", "sensitive_ont", "all", "assembly", "conservative_ont"):
+        for bam in (None, "short.bam"):
+            obl += 1
+            self_ = types.SimpleNamespace(illumina_bam=bam, params=types.SimpleNamespace(splice_correction_strategy=strategy))
+            try:
+                got = bool(eval(code, {"self": self_, "getattr": getattr}))
+            except Exception as e:
+                got = "%s: %s" % (type(e).__name__, e)
+            want = bam is not None and strategy != "none"
+            if got == want:
+                dis += 1
+            else:
+                viol.append({"obligation": "C14.corrector_choice.%s.%s" % (strategy, "short_reads" if bam else "no_short_reads"),
+                             "inputs": {"splice_correction_strategy": strategy, "illumina_bam": bam},
+                             "observed": "%s -> %s" % (ast.unparse(ifs[0].test), got), "required": want})
+    return {"obligations": obl, "discharged": dis, "violations": viol[:4], "cases": obl, "exhaustive": True,
+            "bound": "8 strategies x short reads given / not given", "samples": [{"splice_correction_strategy": "none", "illumina_bam": "short.bam", "want": False}]}
